@@ -157,7 +157,11 @@ Act(sem, labs, txt) ==
 ---------------------------------------------------------------------------
 (* the engine *)
 R(ok, st, v, labs) == [ok |-> ok, st |-> st, v |-> v, labs |-> labs]
-Bump(st) == [st EXCEPT !.cnt = @ + 1]
+\* every parseExpr call adds one step and folds (kind of expression, position) into a running hash of the step sequence: the
+\* step trace of a parse, compared with the trace the real parser reports through its step hook (kind and offset of every step)
+Code(t) == CASE t = "choice" -> 1 [] t = "seq" -> 2 [] t = "act" -> 3 [] t = "lab" -> 4 [] t = "ref" -> 5 [] t = "lit" -> 6 [] t = "cls" -> 7
+             [] t = "any" -> 8 [] t = "andcode" -> 9 [] t = "not" -> 10 [] t = "and" -> 11 [] t = "opt" -> 12 [] t = "star" -> 13 [] t = "plus" -> 14
+Bump(st, e) == [st EXCEPT !.cnt = @ + 1, !.h = (@ * 31 + Code(e.t) * 131 + st.pos) % 16777213]
 Adv(inp, st) ==       \* read(): moving onto a byte that is not valid UTF-8 records an error
   LET np == st.pos + 1 IN
   [st EXCEPT !.pos = np, !.errs = IF np <= Len(inp) /\ inp[np] = "<B>" THEN @ + 1 ELSE @]
@@ -209,7 +213,7 @@ PE(e, inp, st0, fr, z) ==
   IF ~Checked \/ Contract(e, st0, r) THEN r ELSE Assert(FALSE, <<"engine invariant broken at", e.t, st0, r.st>>)
 
 PEraw(e, inp, st0, fr, z) ==
-  LET st == Bump(st0) IN
+  LET st == Bump(st0, e) IN
   IF st.max > 0 /\ st.cnt > st.max THEN R(FALSE, [st EXCEPT !.ab = TRUE], Nil, EmptyF)
   ELSE
   CASE e.t = "choice"  -> PChoice(e.es, 1, inp, st, fr)
@@ -240,10 +244,10 @@ PEraw(e, inp, st0, fr, z) ==
 
 \* grammar.Parse(inp) with MaxExpressions(max) (0 = unlimited)
 Run(inp, max) ==
-  LET st0 == [pos |-> 1, cnt |-> 0, max |-> max, ab |-> FALSE, unm |-> FALSE,
+  LET st0 == [pos |-> 1, cnt |-> 0, h |-> 0, max |-> max, ab |-> FALSE, unm |-> FALSE,
               errs |-> IF Len(inp) >= 1 /\ inp[1] = "<B>" THEN 1 ELSE 0]
       r == PE(RuleOf(G.rules[1].name), inp, st0, EmptyF, 0)
-  IN [ok |-> r.ok /\ ~r.st.ab, v |-> r.v, cnt |-> r.st.cnt, errs |-> r.st.errs, ab |-> r.st.ab, unm |-> r.st.unm]
+  IN [ok |-> r.ok /\ ~r.st.ab, v |-> r.v, cnt |-> r.st.cnt, h |-> r.st.h, errs |-> r.st.errs, ab |-> r.st.ab, unm |-> r.st.unm]
 
 \* what a caller of grammar.Parse / CreateEvaluator observes
 Accepted(res) == res.ok /\ res.errs = 0
